@@ -80,7 +80,8 @@ fn dispatch_inner(prop: &str, ctx: Ctx, replay: Option<&str>) -> i32 {
         }
         "C11" => {
             crate::run::start_watchdog(std::time::Duration::from_secs(ctx.tier.pick(180, 1800)), None);
-            let rep = c11::run(ctx);
+            let mut rep = c11::run(ctx);
+            rep.merge(c11::run_e2e(ctx));
             finish(rep, c11::meta(), ctx.tier, ctx.seed, started)
         }
         "C09" => {
